@@ -530,8 +530,14 @@ pub fn run(ctx: &mut Ctx) {
     // ---- 1. corpus: witnesses of the known findings (DESIGN §8 #3–#7) and of the fixed WSCALE panic
     {
         let ip = V4::default();
+        let mut o: Vec<u8>;
+        // a well-formed Linux-like SYN and its SYN+ACK, v4 and v6
+        o = vec![2, 4, 5, 0xb4, 4, 2, 8, 10, 0, 0, 0, 9, 0, 0, 0, 0, 1, 3, 3, 7];
+        emit4(ctx, &ip, &Tcp { window: 29200, opts: o.clone(), ..Default::default() });
+        emit4(ctx, &ip, &Tcp { window: 28960, flags: 0x12, ack: 5, opts: o.clone(), ..Default::default() });
+        emit6(ctx, &V6::default(), &Tcp { window: 28800, opts: vec![2, 4, 5, 0xa0, 4, 2, 8, 10, 0, 0, 0, 9, 0, 0, 0, 0, 1, 3, 3, 7], ..Default::default() });
         // #3 options mss,nop,ws,nop,nop,ts,sok,eol,00
-        let mut o = vec![2, 4, 5, 0xb4, 1, 3, 3, 6, 1, 1, 8, 10, 0, 0, 0, 9, 0, 0, 0, 0, 4, 2, 0, 0];
+        o = vec![2, 4, 5, 0xb4, 1, 3, 3, 6, 1, 1, 8, 10, 0, 0, 0, 9, 0, 0, 0, 0, 4, 2, 0, 0];
         emit4(ctx, &ip, &Tcp { opts: o.clone(), ..Default::default() });
         // #4 plain ACK without options
         emit4(ctx, &ip, &Tcp { flags: 0x10, ack: 77, window: 4096, ..Default::default() });
@@ -548,11 +554,6 @@ pub fn run(ctx: &mut Ctx) {
         // fixed: WSCALE without payload (`03 02`), lone trailing `03`
         emit4(ctx, &ip, &Tcp { opts: vec![3, 2, 1, 1], ..Default::default() });
         emit4(ctx, &ip, &Tcp { opts: vec![1, 1, 1, 3], ..Default::default() });
-        // a well-formed Linux-like SYN and its SYN+ACK, v4 and v6
-        o = vec![2, 4, 5, 0xb4, 4, 2, 8, 10, 0, 0, 0, 9, 0, 0, 0, 0, 1, 3, 3, 7];
-        emit4(ctx, &ip, &Tcp { window: 29200, opts: o.clone(), ..Default::default() });
-        emit4(ctx, &ip, &Tcp { window: 28960, flags: 0x12, ack: 5, opts: o.clone(), ..Default::default() });
-        emit6(ctx, &V6::default(), &Tcp { window: 28800, opts: vec![2, 4, 5, 0xa0, 4, 2, 8, 10, 0, 0, 0, 9, 0, 0, 0, 0, 1, 3, 3, 7], ..Default::default() });
     }
 
     // ---- 2. exhaustive sub-enumerations
